@@ -339,7 +339,8 @@ theorem loadUnits_spec {F k} : ∀ (us : List (Int × Nat)) (st st' : St), Inv F
 
 theorem outGood_empty {F : List (List Int)} {as : List Int} (hne : ∀ c ∈ F, c ≠ []) (has : as = [])
     (h0 : countVars F as = 0) (P : Params) (L : Loop) (fuel : Nat) : OutGood F as P (mkOut L .OPTIMAL (some []) none fuel) := by
-  refine ⟨?_, ?_, fun hs => by simp [mkOut] at hs, fun _ => by simp [mkOut], fun hs => by simp [mkOut] at hs, Or.inl rfl⟩
+  refine ⟨?_, ?_, fun hs => by simp [mkOut] at hs, fun _ => by simp [mkOut], fun hs => by simp [mkOut] at hs, Or.inl rfl,
+    by simp [mkOut]⟩
   · intro m hm
     simp only [mkOut, Option.some.injEq] at hm
     subst hm
@@ -407,6 +408,59 @@ theorem lperm_loadUnits : ∀ (us : List (Int × Nat)) (st st' : St), loadUnits 
     · split at hs
       · cases hs
       · exact ih _ _ hs
+
+theorem guardDistinct_good {F as P} (n : Nat) (o : Out) (h : OutGood F as P o) : OutGood F as P (guardDistinct n o) := by
+  unfold guardDistinct
+  split
+  · split
+    · exact h
+    · refine ⟨?_, ?_, ?_, ?_, ?_, Or.inr (Or.inr (Or.inr rfl)), by show ("GUARD" : String) ≠ "FUEL"; decide⟩
+      · intro m hm; cases hm
+      · intro ms hms; cases hms
+      · intro hs; cases hs
+      · intro hs; cases hs
+      · intro hs; cases hs
+  · exact h
+
+theorem guardDistinct_distinct (n : Nat) (o : Out) (ms : List (List (Nat × Bool)))
+    (h : (guardDistinct n o).solutions = some ms) : Solvor.Sat.distinctB (List.range' 1 n) ms = true := by
+  unfold guardDistinct at h
+  split at h
+  · rename_i ms' hms'
+    split at h
+    · rename_i hd
+      rw [hms'] at h
+      cases h
+      exact hd
+    · cases h
+  · rename_i hn; rw [hn] at h; cases h
+
+theorem finishInf_empty_solutions (usePure : Bool) (st : St) (fuel : Nat) :
+    (finishInf usePure (emptyLoop st) fuel).solutions = none := by
+  unfold finishInf
+  have : ¬ (emptyLoop st).all.size > 0 := by simp [emptyLoop]
+  simp only [this, if_false]
+  split <;> rfl
+
+/-- whatever the input: an enumeration returned by the mirror has passed the distinctness check -/
+theorem solve_distinct (F : List (List Int)) (as : List Int) (P : Params) (ms : List (List (Nat × Bool)))
+    (h : (solve F as P).solutions = some ms) : Solvor.Sat.distinctB (List.range' 1 (countVars F as)) ms = true := by
+  unfold solve at h
+  split at h
+  · cases h
+  · simp only at h
+    split at h
+    · cases h
+    · split at h
+      · rw [finishInf_empty_solutions] at h; cases h
+      · split at h
+        · rw [finishInf_empty_solutions] at h; cases h
+        · generalize propagate _ = pr at h
+          obtain ⟨st4, c0⟩ := pr
+          simp only at h
+          split at h
+          · rw [finishInf_empty_solutions] at h; cases h
+          · exact guardDistinct_distinct _ _ _ h
 
 theorem solve_good (F : List (List Int)) (as : List Int) (P : Params)
     (hnd : ∀ c ∈ F, c.Nodup) (hnz : ∀ c ∈ F, ∀ l ∈ c, l ≠ 0) (hne : ∀ c ∈ F, c ≠ []) (ha0 : ∀ a ∈ as, a ≠ 0) :
@@ -510,8 +564,27 @@ theorem solve_good (F : List (List Int)) (as : List Int) (P : Params)
           · exact finishInf_good _ _ _ (by intro m hm; simp [emptyLoop] at hm) (cnfTrue_stored hinv4) hE4
               (fun _ => hnb4) hasm4
           · rename_i hnc
-            apply run_spec
-            refine ⟨by intro m hm; simp [emptyLoop] at hm, hasm4, ?_, hne, ?_, hH4, hE4, fun _ => hnb4, ?_⟩
+            have hl4 : st4.trailLim.size = 0 := by rw [ext4.lim]; exact hlim3
+            have hcnt4 := propagate_cnt st3
+            have hnf4 := propagate_nofuel hinv3' hH3
+            rw [hpr] at hcnt4 hnf4
+            simp only at hcnt4 hnf4
+            have hnv4 : st4.nVars = N := by rw [ext4.nV, ext13.nV, hnv1]
+            apply guardDistinct_good
+            apply run_spec P st4.decisions
+            rotate_left
+            · show loopFuel P.maxConflicts P.solutionLimit st4.nVars ≤ 0 + loopFuel P.maxConflicts P.solutionLimit N
+              rw [hnv4]; omega
+            refine ⟨by intro m hm; simp [emptyLoop] at hm, hasm4, ?_, hne, ?_, hH4, hE4, fun _ => hnb4, ?_, hnf4,
+              by simp [emptyLoop], ?_, by simp [emptyLoop], by simp [emptyLoop], ?_, ?_⟩
+            rotate_left 3
+            · show 0 + pend c0 ≤ st4.conflicts
+              omega
+            · show st4.trailLim.size + st4.decisions ≤ st4.decisions
+              omega
+            · refine Or.inr ?_
+              show 0 + st4.trailLim.size ≤ _
+              omega
             · intro a ha
               show a ≠ 0 ∧ a.natAbs ≤ st4.nVars
               rw [ext4.nV, ext13.nV, hnv1]; exact haN a ha
